@@ -6,8 +6,8 @@
 (*                                                                         *)
 (* A program is a sequence of subroutines; a subroutine body is a block; a *)
 (* block is a sequence of statements; a statement is simple ("s"), an      *)
-(* `if` with a consequence block ("if") or with an else block as well      *)
-(* ("ifelse").  Every simple statement and every `if` condition is a       *)
+(* `if` with a consequence block ("if"), with an else block as well        *)
+(* ("ifelse") or with an `else if (cond)` block ("ifelif").  Every simple statement and every `if` condition is a       *)
 (* *site* that carries one diagnostic of each rule in Rules, so the set of *)
 (* surviving (site, rule) pairs is fully informative.                      *)
 (*                                                                         *)
@@ -48,7 +48,7 @@ StmtsOf(n, d) ==
   (IF n = 1 THEN {S} ELSE {}) \cup
   (IF d = 0 THEN {} ELSE
      { [k |-> "if", cons |-> c, alt |-> <<>>] : c \in BlocksOf(n - 1, d - 1) } \cup
-     UNION { { [k |-> "ifelse", cons |-> c, alt |-> a] : c \in BlocksOf(i, d - 1), a \in BlocksOf(n - 1 - i, d - 1) }
+     UNION { { [k |-> kk, cons |-> c, alt |-> a] : kk \in {"ifelse", "ifelif"}, c \in BlocksOf(i, d - 1), a \in BlocksOf(n - 1 - i, d - 1) }
              : i \in 0..(n - 1) })
 \* blocks holding exactly n statements in total
 BlocksOf(n, d) ==
@@ -66,7 +66,7 @@ Programs == UNION { ProgsOf(n, s) : n \in 1..MaxStmts, s \in 1..MaxSubs }
 (* if statement s = s \o <<1>> / s \o <<2>>.                               *)
 (* Events: sublead(gap) sub_open ... block_end(gap) sub_close              *)
 (*         lead(gap) stmt trail(gap)                                       *)
-(*         lead(gap) if_open ... block_end(gap) [else ... block_end(gap)] if_close *)
+(*         lead(gap) if_open ... block_end(gap) [else | elif ... block_end(gap)] if_close *)
 (***************************************************************************)
 RECURSIVE FlatStmts(_, _, _), FlatProgFrom(_, _)
 FlatBlock(b, bid) == FlatStmts(b, bid, 1) \o << <<"block_end", bid>> >>
@@ -78,7 +78,7 @@ FlatStmts(b, bid, j) ==
              [] st.k = "if" -> << <<"lead", id>>, <<"if_open", id>> >> \o FlatBlock(st.cons, Append(id, 1))
                                \o << <<"if_close", id>> >>
              [] OTHER       -> << <<"lead", id>>, <<"if_open", id>> >> \o FlatBlock(st.cons, Append(id, 1))
-                               \o << <<"else", id>> >> \o FlatBlock(st.alt, Append(id, 2))
+                               \o << <<(IF st.k = "ifelse" THEN "else" ELSE "elif"), id>> >> \o FlatBlock(st.alt, Append(id, 2))
                                \o << <<"if_close", id>> >>)
           \o FlatStmts(b, bid, j + 1)
 FlatProgFrom(p, i) ==
@@ -90,7 +90,7 @@ FlatProg(p) == FlatProgFrom(p, 1)
 Kind(e, n) == e[n][1]
 Id(e, n)   == e[n][2]
 IsPrefix(a, b) == Len(a) <= Len(b) /\ SubSeq(b, 1, Len(a)) = a
-Sites(e)   == { n \in DOMAIN e : Kind(e, n) \in {"stmt", "if_open"} }
+Sites(e)   == { n \in DOMAIN e : Kind(e, n) \in {"stmt", "if_open", "elif"} }
 OwnLine(e, n) == Kind(e, n) \in {"lead", "sublead", "block_end"}
 GapOf(e, kind, id) == CHOOSE g \in DOMAIN e : Kind(e, g) = kind /\ Id(e, g) = id
 
@@ -266,13 +266,18 @@ IfOpen == /\ Kind(ev, pc) = "if_open"
 Else == /\ Kind(ev, pc) = "else"
         /\ ig' = SetupBlock(TeardownBlock(ig, Leading("block_end", Append(Id(ev, pc), 1))), <<>>)
         /\ UNCHANGED rep
+\* `else if (cond)`: the consequence block is left, the second condition is linted (no setup of its own: the
+\* else-if node is not a statement of the walk), then its block is entered
+Elif == /\ Kind(ev, pc) = "elif"
+        /\ LET g == TeardownBlock(ig, Leading("block_end", Append(Id(ev, pc), 1))) IN
+           ig' = SetupBlock(g, <<>>) /\ Report(g)
 IfClose == /\ Kind(ev, pc) = "if_close"
-           /\ LET last == IF \E g \in DOMAIN ev : Kind(ev, g) = "else" /\ Id(ev, g) = Id(ev, pc) THEN 2 ELSE 1 IN
+           /\ LET last == IF \E g \in DOMAIN ev : Kind(ev, g) \in {"else", "elif"} /\ Id(ev, g) = Id(ev, pc) THEN 2 ELSE 1 IN
               ig' = TeardownStatement(TeardownBlock(ig, Leading("block_end", Append(Id(ev, pc), last))))
            /\ UNCHANGED rep
 
 Walk == /\ pc >= 1 /\ pc <= Len(ev)
-        /\ (SubOpen \/ SubClose \/ Stmt \/ Trail \/ IfOpen \/ Else \/ IfClose)
+        /\ (SubOpen \/ SubClose \/ Stmt \/ Trail \/ IfOpen \/ Else \/ Elif \/ IfClose)
         /\ pc' = SkipGaps(pc + 1)
         /\ UNCHANGED <<ev, dirs, req, silent>>
 Next == Place \/ Walk
